@@ -330,6 +330,8 @@ def run_c20_instr(ctx):
                                                    FloatVals=[F["zero"], F["one"], F["x15"], F["three"], F["nan"], F["mone"], F["inf"], F["h"]] if not q else [F["one"], F["x15"], F["nan"]], DFloat=1))
     mc_stage(ctx, "neighbor_vals", NEIGH[1:], dict(CodePool="recs", IntVals=[-1, 0, 1, 2, 9, 70] if not q else [0, 1, 9, 70], DInt=4,
                                                     FloatVals=[F["one"], F["x15"], F["nan"]] if not q else [F["x15"]], DFloat=1, DCode=1 if q else 2))
+    # every value position of nested records (positions beyond the first values of a nested sublist)
+    mc_stage(ctx, "neighbor_vals_pos", NEIGH[1:], dict(CodePool="recs", IntVals=[2, 3, 9], DInt=4, FloatVals=[F["x15"]], DFloat=1, DCode=2))
 
 
 def io_sequence_cases(ctx, n):
@@ -1231,7 +1233,7 @@ def run_c15(ctx):
         if pre.get("bind") == []:
             pre["bind"] = {}
         cs.append({"id": "cost-%05d" % i, "pre": pre, "acts": [{"a": "step"}], "predict": c["predict"]})
-    run_events(ctx, "cost_replay", cs, mem_kb=1024 * 1024, timeout_case=6, env={"PV_UNGUARDED": "1"})
+    run_events(ctx, "cost_replay", cs, mem_kb=1024 * 1024, timeout_case=6, env={"PV_UNGUARDED": "1"}, max_hangs=None)
     # random extreme operands for every instruction: predicted bounded unless the model says otherwise is
     # decided by TLC only for the enumerated cases; here every instruction gets extreme integers and must
     # not abort or hang (panics are C01's business)
@@ -1247,7 +1249,7 @@ def run_c15(ctx):
             s["float"] = [g.r.choice(gen.F_POOL) for _ in range(3)] + s["float"]
             s["exec"] = [ins(name), ins("NOOP")]
             cs.append({"id": "extreme-%s-%d" % (name, i), "pre": s, "acts": [{"a": "step"}], "predict": "bounded"})
-    run_events(ctx, "extreme_operands", cs, mem_kb=1024 * 1024, timeout_case=6, env={"PV_UNGUARDED": "1"})
+    run_events(ctx, "extreme_operands", cs, mem_kb=1024 * 1024, timeout_case=6, env={"PV_UNGUARDED": "1"}, max_hangs=40)
     # operand combinations and histories that are harmless one by one: code operands that contain each other,
     # and name bindings that refer to each other (a single step must stay bounded by the state size)
     I = lambda v: {"k": "int", "v": v}
@@ -1293,7 +1295,7 @@ def run_c15(ctx):
             for iname in ("NAME.QUOTE", "CODE.DEFINITION", "EXEC.DEFINE", "NAME.RANDBOUNDNAME"):
                 s3 = json.loads(json.dumps(s2)); s3["exec"] = [ins(iname), idn(top)]
                 cs.append({"id": "alias-%d-%s-%s" % (k, top, iname), "pre": s3, "acts": [{"a": "step"}], "predict": "bounded"})
-    run_events(ctx, "combinations", cs, mem_kb=1024 * 1024, timeout_case=6, env={"PV_UNGUARDED": "1"})
+    run_events(ctx, "combinations", cs, mem_kb=1024 * 1024, timeout_case=6, env={"PV_UNGUARDED": "1"}, max_hangs=40)
     # (C) doubling programs under the default limits
     cs = []
     for i, body in enumerate([["CODE.DUP", "CODE.LIST"], ["CODE.DUP", "CODE.CONS"], ["CODE.DUP", "CODE.APPEND"], ["EXEC.DUP"], ["NAME.DUP", "NAME.CAT"]]):
